@@ -267,3 +267,25 @@ define void @f() !type !0 !type !1 !foo !2 {
 !named = !{!0, !1}
 !0 = !DIDerivedType(tag: DW_TAG_pointer_type, baseType: null, size: 64, dwarfAddressSpace: 0)
 !1 = !DIDerivedType(tag: DW_TAG_pointer_type, baseType: null, size: 64, dwarfAddressSpace: 3)
+;;; ATOM md/inline-specialized-nodes
+@g = global [4 x i32] zeroinitializer, !dbg !0
+!llvm.module.flags = !{!20}
+!llvm.dbg.cu = !{!2}
+!0 = !DIGlobalVariableExpression(var: !1, expr: !DIExpression())
+!1 = distinct !DIGlobalVariable(name: "g", scope: !2, file: !3, line: 1, type: !5, isLocal: false, isDefinition: true)
+!2 = distinct !DICompileUnit(language: DW_LANG_C99, file: !3, producer: "p", isOptimized: false, runtimeVersion: 0, emissionKind: FullDebug, globals: !4, enums: !{!7})
+!3 = !DIFile(filename: "a.c", directory: "/")
+!4 = !{!0}
+!5 = !DICompositeType(tag: DW_TAG_array_type, baseType: !DIBasicType(name: "int", size: 32, encoding: DW_ATE_signed), size: 128, elements: !{!DISubrange(count: 4), !DISubrange(lowerBound: 1, upperBound: 3)})
+!7 = !DICompositeType(tag: DW_TAG_enumeration_type, name: "E", file: !3, line: 2, baseType: !DIBasicType(name: "unsigned int", size: 32, encoding: DW_ATE_unsigned), size: 32, elements: !{!DIEnumerator(name: "A", value: 0, isUnsigned: true), !DIEnumerator(name: "B", value: 1, isUnsigned: true)})
+!20 = !{i32 2, !"Debug Info Version", i32 3}
+;;; ATOM md/names-with-leading-digits
+@g = global i32 0, !\32nd !0, !\31 !1
+define void @f() !\33d.x !0 {
+  ret void, !\34\20th !1
+}
+!\31abc = !{!0}
+!\39 = !{!1}
+!\30x10 = !{!0, !1}
+!0 = !{!"a"}
+!1 = !{!"b"}
